@@ -447,9 +447,24 @@ def const_forward(F, path):
     return rets[0]['rv']['op']['text'] if len(rets) == 1 else None
 
 
-def r7(R7, cfg, F):
+def r7(R7, cfg, F, only_pairing=False):
     """Whether a key is reloadable is decided from Type.inner.hot_reloaded (records, registration) and from
     <T as Storable>::HOT_RELOADED (entry kind).  Both must come from what the type declared."""
+    if only_pairing:
+        # (for C02: the TypeId a look-up uses is the TypeId of the very type asked for)
+        for fn in ('of_asset', 'of_storable'):
+            b = F.body('key::Type::' + fn)
+            if not b:
+                R7.missing(cfg, 'key::Type::' + fn)
+                continue
+            ag = [s for _, _, s in b.assigns() if s['rv']['k'] == 'aggregate' and s['rv'].get('adt') == 'key::Type']
+            ok = len(ag) == 1
+            if ok:
+                f = dict(zip(ag[0]['rv']['fields'], ag[0]['rv']['ops']))
+                a, c = b.call_roots(f['type_id']), b.call_roots(f['inner'])
+                ok = len(a) == 1 and a[0].callee.best == 'std::any::TypeId::of' and a[0].callee.args == ['T'] and len(c) == 1 and c[0].callee.best == 'key::Inner::' + fn and c[0].callee.args == ['T']
+            R7.check(ok, cfg, b.path, 'Type=(TypeId::of::<T>, Inner::%s::<T>)' % fn, 'a Type must pair the TypeId of T with the descriptor of the same T', b.loc())
+        return
     for fn, trait, loader in (('of_asset', 'asset::Compound', 'key::Inner::of_asset::load_entry::<T>'), ('of_storable', 'asset::Storable', 'key::Inner::of_storable::load')):
         pb = F.bodies.get('key::Inner::%s::{promoted#0}' % fn)
         if pb is None:
@@ -490,6 +505,21 @@ def r7(R7, cfg, F):
                        ('<std::sync::Arc<T> as asset::Compound>::HOT_RELOADED', '<T as asset::Compound>::HOT_RELOADED')):
         got = const_forward(F, path)
         R7.check(got == want, cfg, path, 'forwards-' + want, 'the blanket impl must forward the opt-out of the type: `%s` is %s, expected %s' % (path, got, want))
+    # every wrapper impl (`impl<U: Compound> Compound for Wrapper<U>`: Arc<U>, OnceInitCell<U, T>, OnceInitCell<Option<U>, T>)
+    # must forward the opt-out of what it wraps: the trait default is `true`, so a wrapper that says nothing would make
+    # a non-reloadable type reloadable
+    for im in F.impls:
+        if im['trait'] != 'asset::Compound' or not im.get('self_ty'):
+            continue
+        wrapped = [m.group(1) for pr in im['predicates'] for m in [re.match(r'^(\w+): asset::Compound$', pr)] if m]
+        if len(wrapped) != 1 or im['self_ty'] == wrapped[0]:
+            continue
+        items = {it.get('name'): it['path'] for it in im['items']}
+        want = '<%s as asset::Compound>::HOT_RELOADED' % wrapped[0]
+        got = const_forward(F, items['HOT_RELOADED']) if 'HOT_RELOADED' in items else None
+        R7.check(got == want, cfg, '<%s as asset::Compound>' % im['self_ty'], 'forwards-' + want,
+                 '`impl Compound for %s` must forward the opt-out of the type it wraps (HOT_RELOADED = %s); it is %s'
+                 % (im['self_ty'], want, got if got is not None else 'not declared (the trait default, true, applies)'))
     ck = F.bodies.get('asset::Storable::_CHECK_NOT_HOT_RELOADED')
     if ck:
         texts = [s['rv']['op'].get('text') for _, _, s in ck.assigns() if s['rv']['k'] == 'use' and s['rv']['op']['k'] == 'const']
